@@ -20,6 +20,23 @@ def parse_case(case):
     return D, cf, df, ths, sched, flag
 
 
+def parse_fu(case):
+    """first-use case: fu D c1 d1 .. | NT {nops op*}* | sched | 1"""
+    f = [x.strip() for x in case[2:].split("|")]
+    hd = [int(x) for x in f[0].split()]
+    D = hd[0]
+    cf = [hd[1 + 2 * i] for i in range(D)]
+    df = [hd[2 + 2 * i] for i in range(D)]
+    tv = [int(x) for x in f[1].split()]
+    nt, q, opss = tv[0], 1, []
+    for _ in range(nt):
+        n = tv[q]
+        opss.append(tv[q + 1:q + 1 + n])
+        q += 1 + n
+    sched = [int(x) for x in f[2].split()]
+    return D, cf, df, opss, sched
+
+
 def interleaved(s):
     return any(s[i] != s[i + 1] and s[i] in s[i + 2:] for i in range(len(s) - 2))
 
@@ -32,7 +49,9 @@ class C34(Check):
                 "C34_count_is_refs_held", "C34_destroyed_at_most_once", "C34_zero_is_last",
                 "C34_nothing_after_destroy", "C34_live_trace_positive", "C34_no_touch_after_destroy",
                 "C34_destroyed_iff_no_reference_left", "C34_all_released_destroyed_once",
-                "C34_leaked_never_destroyed", "C34_whole_life", "C34_undisciplined_refuted")
+                "C34_leaked_never_destroyed", "C34_whole_life", "C34_undisciplined_refuted",
+                "C34_first_use_init_once", "C34_first_use_mutex", "C34_first_use_lives", "C34_first_use_finished",
+                "C34_first_use_no_recheck_refuted")
     comp = "obj"
     extract_file = "theories/Extract/Extract_Obj.v"
     extracted = ("obj",)
@@ -49,7 +68,11 @@ class C34(Check):
                   "atomic update ever performed, the trace then ends with the destructor chain and free, exactly once; no update "
                   "touches a destroyed object; destroyed iff no reference is left; all released => destroyed exactly once; a leaked "
                   "reference => never destroyed. C34_undisciplined_refuted keeps the witness of what a retain without a held "
-                  "reference does (double destruction). Tie: the real parsec_object.{h,c} run under the same schedules in coroutines; "
+                  "reference does (double destruction). (c) First use: for ANY number of threads creating an object of the same not yet "
+                  "initialised class and ANY schedule over lock/unlock/fetch-add, the arrays are built exactly once and equal those of one "
+                  "sequential parsec_class_initialize, class_lock is a mutex, and every thread's object lives one complete life "
+                  "(constructors base->derived before first use, destructors derived->base exactly when its last reference goes); "
+                  "C34_first_use_no_recheck_refuted: without the re-test under the lock the arrays are built twice. Tie: the real parsec_object.{h,c} run under the same schedules in coroutines; "
                   "constructor log, full event trace (thread:returned count, destructors, free), destroy/late counters, final count, "
                   "cls_depth, per-thread step counts and the PARSEC_OBJ_CONSTRUCT/DESTRUCT sequences are compared with the extracted "
                   "model. Full level.")
@@ -57,8 +80,9 @@ class C34(Check):
                   "the harness hooks (fetch-add logger, free() quarantine of the object's block). Sequentially consistent atomics. "
                   "Model granularity: a release is ONE step (fetch-add, and when it reads 0 the destructor chain and free); this is "
                   "without loss for the property because the theorems show that no other update can follow the one that reads 0. "
-                  "Not modelled: concurrent lazy class initialisation (the class_lock double check; classes are initialised by the "
-                  "creating thread here), PARSEC_DEBUG_PARANOID fields, hand-over of a reference from one thread to another after "
+                  "First-use model: the code between lock and unlock (re-test, both loops, cls_initialized = 1, save_class) is one step "
+                  "(justified by the mutex theorem; the race build explores the finer interleavings of the plain accesses to "
+                  "cls_initialized and the arrays, fresh blocks reading as zeros there). Not modelled: PARSEC_DEBUG_PARANOID fields, hand-over of a reference from one thread to another after "
                   "the start (covered only as an initial distribution). int32 count: wrap written into the model, theorems assume "
                   "references + retains < 2^31. Race exploration (search only, no proof): a second build (clang -fsanitize=thread "
                   "+ tsanrt.c) makes every plain or atomic access to obj_reference_count a scheduling point and judges the "
@@ -68,7 +92,8 @@ class C34(Check):
                  "atomics, hooked free) of the real PARSEC_OBJ_NEW/RETAIN/RELEASE/CONSTRUCT/DESTRUCT against the extracted model")
     rule = ("hierarchies (depth 1..6, every NULL pattern up to depth 3 exhaustively, random above) x reference distributions over "
             "1..6 threads (disciplined+balanced, disciplined+leaking, undisciplined) x schedules (sequential, round-robin, reversed, "
-            "final releases racing, random); non-trivial = >= 2 threads with operations and an interleaving schedule (key: case "
+            "final releases racing, random); first-use cases: 2..4 threads PARSEC_OBJ_NEW the same fresh class of depth 1..6 then "
+            "retain/release their own object, schedules all-start-first / sequential / round-robin / random; non-trivial = >= 2 threads with operations and an interleaving schedule (key: case "
             "text), or a distinct hierarchy pattern (key: pattern)")
     trusted = ("cosched.h/interpose.h scheduling points; harness/h_obj.c hooks: parsec_atomic_fetch_add_int32 logger, free() quarantine",)
     assumptions = ("sequentially consistent atomics (parsec_atomic_fetch_add_int32 is a full-barrier builtin)",
@@ -168,7 +193,35 @@ class C34(Check):
             ths = self.threads(r, flag)
             out.append("%s | %s | %s | %d" % (self.hier_txt(D, fl), self.thr_txt(ths),
                                               " ".join(map(str, self.sched(r, ths))), flag))
+        for _ in range(500 if self.tier == "quick" else 10000):
+            out.append(self.fu_case(r, race=False))
         return out
+
+    # first use of a fresh class by several threads
+    def fu_case(self, r, race):
+        D = r.pick([1, 2, 3, 4, 2, 3, 4, 4, 5, 6])
+        k = r.below(4)
+        fl = [(1, 1)] * D if k == 0 else [(r.below(2), r.below(2)) for _ in range(D)]
+        nt = r.pick([2, 2, 3, 3, 3, 4])
+        opss = [self.disc_ops(r, 1, False) for _ in range(nt)]
+        need = [len(o) + 4 for o in opss]
+        kind = r.below(5)
+        if race:       # every plain access is a step there: long random prefixes, the rest is round-robin
+            s = [] if kind == 0 else [r.below(nt) for _ in range(r.range(nt, 60 * nt))]
+        elif kind == 0:    # all threads read cls_initialized == 0 first, then random
+            s = r.shuffle(range(nt)) + [r.below(nt) for _ in range(r.range(0, sum(need)))]
+        elif kind == 1:    # sequential: only the first thread initialises
+            s = [t for t in range(nt) for _ in range(need[t])]
+        elif kind == 2:    # round robin
+            s = []
+        elif kind == 3:    # one thread gets as far as the unlock, the others arrive meanwhile
+            a = r.shuffle(range(nt))
+            s = [a[0], a[0]] + a[1:] + a[1:] + [a[0]] + [r.below(nt) for _ in range(r.range(0, sum(need)))]
+        else:
+            s = [r.below(nt) for _ in range(r.range(0, sum(need) + nt))]
+        return "fu %s | %s | %s | 1" % (self.hier_txt(D, fl),
+                                        " ".join([str(nt)] + [" ".join([str(len(o))] + [str(x) for x in o]) for o in opss]),
+                                        " ".join(map(str, s)))
 
     def search_cases(self):
         r = self.rng.fork()
@@ -193,6 +246,10 @@ class C34(Check):
                 out.append("%s | %s | %s | 1" % (fl, self.thr_txt(ths), " ".join(map(str, r.shuffle(range(nt)) * 2))))
                 ths = [(1, [1, 0, 0])] * nt
                 out.append("%s | %s | %s | 1" % (fl, self.thr_txt(ths), " ".join(map(str, r.shuffle(list(range(nt)) * 3)))))
+        # first use of a fresh class: plain accesses to cls_initialized, the class descriptor, the arrays and
+        # the objects are scheduling points
+        for _ in range(400 if self.tier == "quick" else 4000):
+            out.append(self.fu_case(r, race=True))
         for c in cases:
             try:
                 D, cf, df, ths, sched, flag = parse_case(c)
@@ -217,6 +274,18 @@ class C34(Check):
 
     # ------------------------------------------------------------------ bookkeeping
     def nontrivial_key(self, case):
+        if case.startswith("fu"):
+            try:
+                D, cf, df, opss, sched = parse_fu(case)
+            except Exception:
+                return None
+            # at least two threads reach parsec_class_initialize before the class is initialised
+            first = []
+            for t in sched:
+                if t in first:
+                    break
+                first.append(t)
+            return case if (len(first) >= 2 or not sched) and len(opss) >= 2 else ("fu-hier", D, tuple(cf), tuple(df))
         try:
             D, cf, df, ths, sched, flag = parse_case(case)
         except Exception:
@@ -229,6 +298,7 @@ class C34(Check):
     def dist(self, cases):
         d = {"depth_hist": {}, "threads_hist": {}, "disciplined_balanced": 0, "disciplined_leak": 0, "undisciplined": 0,
              "interleaved": 0, "ops_total": 0}
+        d["first_use"] = sum(1 for c in cases if c.startswith("fu"))
         for c in cases:
             try:
                 D, cf, df, ths, sched, flag = parse_case(c)
@@ -246,6 +316,8 @@ class C34(Check):
         """returns (signature, message) or None.  race=True: the observation comes from the race-exploration
         build, where the logged value is what parsec_obj_update RETURNED and the log order is the order of
         the returns; only property-level facts are judged there (not the arithmetic of each returned value)"""
+        if case.startswith("fu"):
+            return self.judge_fu(case, obs)
         try:
             D, cf, df, ths, sched, flag = parse_case(case)
         except Exception:
@@ -335,6 +407,51 @@ class C34(Check):
                         % (cur, " ".join(ev)))
             if rc != cur or rc < 1:
                 return ("final-count", "final count %d, references still held %d" % (rc, cur))
+        return None
+
+    def judge_fu(self, case, obs):
+        """first use of a fresh class: every thread's own object must live exactly one complete life"""
+        try:
+            D, cf, df, opss, sched = parse_fu(case)
+        except Exception:
+            return None
+        if obs.startswith("<bad case>"):
+            return None
+        if obs.startswith("<") or "<deadlock>" in obs:
+            return ("crash", "the implementation did not complete: " + obs[:120])
+        try:
+            f = [x.strip() for x in obs.split("|")]
+            logs = [x.split()[1:] for x in f[1:1 + len(opss)]]
+            if len(logs) != len(opss) or not f[1 + len(opss)].startswith("steps"):
+                raise ValueError
+        except Exception:
+            return ("unparsable", "unparsable observation " + obs[:120])
+        exp_c = ["c%d" % (i + 1) for i in range(D) if cf[i]]
+        exp_d = ["d%d" % (i + 1) for i in reversed(range(D)) if df[i]]
+        for t, (ops, lg) in enumerate(zip(opss, logs)):
+            nc = 0
+            while nc < len(lg) and lg[nc][0] == "c":
+                nc += 1
+            if lg[:nc] != exp_c:
+                return ("first-use-ctor", "thread %d's object of the fresh class was constructed by %s, expected exactly %s (base first): %s"
+                        % (t, lg[:nc], exp_c, " ".join(lg)))
+            rest = lg[nc:]
+            cur, i = 1, 0
+            for o in ops:
+                if i >= len(rest) or rest[i][0] != ":":
+                    return ("first-use-update", "thread %d: operation %d left no update in its log: %s" % (t, i + 1, " ".join(lg)))
+                cur += 1 if o else -1
+                if int(rest[i][1:]) != cur:
+                    return ("first-use-update", "thread %d: update %d returned %s, expected %d: %s" % (t, i + 1, rest[i][1:], cur, " ".join(lg)))
+                i += 1
+                if cur == 0:
+                    break
+            tail = rest[i:]
+            if cur == 0 and tail != exp_d + ["F"]:
+                return ("first-use-dtor", "thread %d dropped the last reference of its object and then ran %s, expected destructors %s "
+                        "(derived first, each once) then free: %s" % (t, tail, exp_d, " ".join(lg)))
+            if cur != 0 and tail:
+                return ("first-use-early", "thread %d's object still has %d references but %s ran: %s" % (t, cur, tail, " ".join(lg)))
         return None
 
     def oracle(self, case, obs):
